@@ -65,6 +65,12 @@ def scenarios(run):
     for comp in Q.COMPRESSIONS:
         for ni in (True, False):
             add(Q.cfg("insert", Q.S("hdr", "eos"), init_rows=1, need_info=ni), compression=comp)
+    # blocks whose compressed frame exceeds 64 KiB (12 000 incompressible rows), last before the terminator and in the middle
+    for comp in ["lz4", "zstd", "none", "disabled"]:
+        add(Q.cfg("insert", Q.S("hdr", "eos"), init_rows=1), compression=comp, rows_per=12000)
+        for h in ([Q.Pl("append", "eof")], [Q.Pl("keep", "weof")], [Q.Pl("reappend", "nil"), Q.Pl("reset", "eof")],
+                  [Q.Pl("append", "nil"), Q.Pl("overwrite", "nil"), Q.Pl("append", "eof")]):
+            add(Q.cfg("stream", Q.S("hdr", "eos"), plan=h, init_rows=1), compression=comp, rows_per=12000)
     # write segmentations: the connection breaks inside every round
     for h in ([Q.Pl("append", "nil"), Q.Pl("overwrite", "nil"), Q.Pl("reappend", "eof")], [Q.Pl("append", "eof")]):
         for comp in ["disabled", "lz4"]:
